@@ -127,12 +127,24 @@ def obs(d):
     f = d.get_frequencies(masked=None)
     z = d.get_impedances(masked=None)
     m = d.get_mask()
-    return (f"f={','.join(map(str, fr(f)))};z={','.join(str(int(round(c.real))) for c in z)};"
+    # `masked` may be a numpy boolean (accepted by the validation): the same views must come back
+    npflag = ""
+    for b in (False, True):
+        if list(d.get_frequencies(masked=np.bool_(b))) != list(d.get_frequencies(masked=b)) or list(d.get_impedances(masked=np.bool_(b))) != list(d.get_impedances(masked=b)):
+            npflag = ";numpy-bool-argument-gives-another-view"
+    return npflag.lstrip(";") + (";" if npflag else "") + (f"f={','.join(map(str, fr(f)))};z={','.join(str(int(round(c.real))) for c in z)};"
             f"m={','.join(f'{k}:{int(v)}' for k, v in m.items())};vn={view(None)};vf={view(False)};vt={view(True)}")
 
 
 def Z(zs):
     return np.array([complex(z, z) for z in zs], dtype=complex)
+
+
+def npmask(m, k):
+    """every third mask is given with numpy booleans (and every sixth with numpy integer keys too): both are accepted by the validation"""
+    if k % 3 == 1:
+        return {(np.int64(i) if k % 6 == 1 else i): np.bool_(v) for i, v in m.items()}
+    return m
 
 
 def run_real(lines):
@@ -148,7 +160,7 @@ def run_real(lines):
                 slots = {}
                 out.append("ok")
             elif a[0] == "new":
-                m = dict(pairs(a[4]))
+                m = npmask(dict(pairs(a[4])), len(out))
                 d = DataSet(np.array(ints(a[2]), dtype=float), Z(ints(a[3])), mask=m)
                 slots[int(a[1])] = d
                 out.append(f"ok {obs(d)}|{','.join(f'{k}:{int(v)}' for k, v in m.items())}")
@@ -185,7 +197,7 @@ def run_real(lines):
                     out.append("err no-slot")
                     continue
                 if a[0] == "setmask":
-                    m = dict(pairs(a[2]))
+                    m = npmask(dict(pairs(a[2])), len(out))
                     m0 = dict(m)
                     d.set_mask(m)
                     assert m == m0
